@@ -1,6 +1,7 @@
 """C13 — the configurable nesting limit bounds every accepted filter."""
 from lib import *
 import parsergraph
+import sem
 
 LEVEL = "other"
 EXPLANATION = ("An interprocedural abstract interpretation over the monomorphic call graph of the parser assigns to "
@@ -87,29 +88,53 @@ def rule_cmp(E, R):
     h = E.hir(INC)
     if not h:
         return R.cannot(rule, INC, "anchor not found")
-    t = tail(h["body"])
-    ok_cmp = ok_err = ok_inc = ok_ret = False
-    if t.get("k") == "If":
-        c = strip(t["cond"])
-        if c.get("k") == "Binary":
-            l, r = strip(c["l"]), strip(c["r"])
-            lname = l.get("name") if l.get("k") == "Field" else None
-            rname = r.get("name") if r.get("k") == "Field" else None
-            ok_cmp = (c["op"], lname, rname) == ("Ge", "current_nesting_depth", "max_nesting_depth")
-            if not ok_cmp:
-                R.violation(rule, INC, "limit test is `current_nesting_depth >= max_nesting_depth`",
-                            "found `%s %s %s`: the filter must be accepted exactly when its nesting is at most the limit" % (lname, c["op"], rname), c.get("sp", ""))
-        et = tail(t["then"])
-        ok_err = norm(et.get("callee", "")) == "core::result::Result::Err"
-        incs = [a for a in exprs(t.get("else", {}), "AssignOp")]
-        ok_inc = len(incs) == 1 and incs[0]["op"].startswith("Add") and lit_value(incs[0]["r"]) == 1 and \
-            strip(incs[0]["l"]).get("name") == "current_nesting_depth"
-        clones = [c for c in exprs(t.get("else", {}), "MethodCall") if c["m"] == "clone" and local_name(c["recv"]) == "self"]
-        rt = tail(t.get("else", {}))
-        ok_ret = norm(rt.get("callee", "")) == "core::result::Result::Ok" and len(clones) == 1 and \
-            local_name(rt["args"][0]) == local_name(strip(incs[0]["l"])["e"]) if incs else False
+    S = sem.Sem(E, h)
+
+    def field_of_self(n, fr, name):
+        v = S.resolve(n, fr)
+        x = strip(v.node)
+        if x.get("k") != "Field" or x.get("name") != name:
+            return False
+        b, _, _, _ = sem.provenance(S, x["e"], v.frame)
+        return b is not None and b.name == "self"
+
+    def limit_cmp(pc):
+        """the certain comparison between the counter and the limit on this path, as (op, 'cur'/'max' order)"""
+        for op, l, r, fr, certain in sem.weak_cmps(pc):
+            if not certain:
+                continue
+            if field_of_self(l, fr, "current_nesting_depth") and field_of_self(r, fr, "max_nesting_depth"):
+                return op, "cur,max"
+            if field_of_self(l, fr, "max_nesting_depth") and field_of_self(r, fr, "current_nesting_depth"):
+                return op, "max,cur"
+        return None
+    leaves = S.result_leaves()
+    oks = [x for x in leaves if norm(x.node.get("callee", "")) == "core::result::Result::Ok"]
+    errs = [x for x in leaves if norm(x.node.get("callee", "")) == "core::result::Result::Err"]
+    ok_cmp = bool(oks)
+    for x in oks:
+        c = limit_cmp(x.pc)
+        if c != ("Lt", "cur,max"):
+            ok_cmp = False
+            R.violation(rule, INC, "limit test is `current_nesting_depth >= max_nesting_depth`",
+                        "the incremented parser is returned on a path where %s: the filter must be accepted exactly when its "
+                        "nesting is at most the limit" % (("`%s` holds for (%s)" % c) if c else "the counter is not compared with the limit"),
+                        x.node.get("sp", ""))
     if ok_cmp:
         R.ok(rule, INC, "limit test is `current_nesting_depth >= max_nesting_depth`", where=h["span"])
+    ok_err = bool(errs) and all(limit_cmp(x.pc) == ("Le", "max,cur") for x in errs)
+    incs = [x for x in S.sites() if x.node.get("k") == "AssignOp" and strip(x.node["l"]).get("k") == "Field" and
+            strip(x.node["l"]).get("name") == "current_nesting_depth"]
+    plain = [x for x in S.sites() if x.node.get("k") == "Assign" and strip(x.node["l"]).get("k") == "Field" and
+             strip(x.node["l"]).get("name") == "current_nesting_depth"]
+    ok_inc = len(incs) == 1 and not plain and incs[0].node["op"].startswith("Add") and lit_value(incs[0].node["r"]) == 1 and \
+        not incs[0].in_loop and limit_cmp(incs[0].pc) == ("Lt", "cur,max")
+    ok_ret = False
+    if incs and oks:
+        nb = sem.root_local(S, strip(incs[0].node["l"])["e"], incs[0].frame)
+        cl = sem.is_method(nb.expr, "clone") if nb is not None and nb.expr is not None else None
+        from_self = cl is not None and sem.provenance(S, cl, nb.frame)[0] is not None and sem.provenance(S, cl, nb.frame)[0].name == "self"
+        ok_ret = from_self and all(x.node.get("args") and S.lookup(sem.peel(x.node["args"][0]), x.frame) is nb for x in oks)
     R.check(ok_err, rule, INC, "at the limit an error is returned", where=h["span"])
     R.check(ok_inc, rule, INC, "otherwise the counter is increased by exactly 1", where=h["span"])
     R.check(ok_ret, rule, INC, "on a clone of the parser, which is returned", where=h["span"])
